@@ -173,6 +173,47 @@ func TestC08Scaling(t *testing.T) {
 		if err := pt.Validate(); err != nil {
 			vev.Fail(t, c08, "C08/scaling/validate", "table built by Add does not Validate: %v", err)
 		}
+		// the same members added in several calls, in a generated order (a later call may dwarf
+		// what is already there, so earlier members' scaled power has to drop, possibly to 0):
+		// the result must be the same table
+		batches := 1
+		if len(entries) > 1 {
+			order := make([]int, len(entries))
+			for i := range order {
+				order[i] = i
+			}
+			for i := len(order) - 1; i > 0; i-- {
+				j := rapid.IntRange(0, i).Draw(t, "addorder")
+				order[i], order[j] = order[j], order[i]
+			}
+			inc := gpbft.NewPowerTable()
+			for pos := 0; pos < len(order); {
+				k := rapid.IntRange(1, len(order)-pos).Draw(t, "batch")
+				var b gpbft.PowerEntries
+				for _, i := range order[pos : pos+k] {
+					b = append(b, entries[i])
+				}
+				if err := inc.Add(b...); err != nil {
+					vev.Fail(t, c08, "C08/scaling/add-error", "Add of a batch of well-formed entries failed: %v", err)
+				}
+				pos += k
+				batches++
+				// after every call the table is internally consistent
+				check(fmt.Sprintf("PowerTable after %d Add calls", batches-1), inc.ScaledPower, inc.ScaledTotal, inc.Entries)
+				if err := inc.Validate(); err != nil {
+					vev.Fail(t, c08, "C08/scaling/validate", "table after %d Add calls does not Validate: %v", batches-1, err)
+				}
+			}
+			if inc.ScaledTotal != pt.ScaledTotal || len(inc.Entries) != len(pt.Entries) {
+				vev.Fail(t, c08, "C08/scaling/incremental-differs", "members added in %d calls: scaled total %d, added at once: %d", batches-1, inc.ScaledTotal, pt.ScaledTotal)
+			}
+			for i := range pt.Entries {
+				j, ok := inc.Lookup[pt.Entries[i].ID]
+				if !ok || inc.ScaledPower[j] != pt.ScaledPower[i] || inc.Entries[j].Power.Int.Cmp(pt.Entries[i].Power.Int) != 0 {
+					vev.Fail(t, c08, "C08/scaling/incremental-differs", "member %d: scaled power differs between a table built by several Add calls and one built at once", pt.Entries[i].ID)
+				}
+			}
+		}
 		hasZero := false
 		for _, s := range scaled {
 			if s == 0 {
@@ -185,7 +226,7 @@ func TestC08Scaling(t *testing.T) {
 		if hasZero {
 			z = "table-with-zero-scaled-member"
 		}
-		vev.Case(c08, vev.Digest("tbl", fmt.Sprint(entries)), nt, lbl, z)
+		vev.Case(c08, vev.Digest("tbl", fmt.Sprint(entries)), nt, lbl, z, fmt.Sprintf("table-built-incrementally:%v", batches > 2))
 		vev.Sample(c08, func() any {
 			pw := []string{}
 			for i, e := range entries {
